@@ -288,7 +288,7 @@ func negotiateFeatures(ctx context.Context, s *Session, first, ws bool, features
 
 	// If the list contains no required features and a stream restart is not
 	// required,  negotiation is complete.
-	if !list.req {
+	if !list.req && rw == nil {
 		mask |= Ready
 	}
 
